@@ -116,5 +116,8 @@ package badger
 //@   ghostset at "wb.Delete(tk)": pending = pending + 1
 //@   ghostset at "if err := wb.Commit(); err != nil {": batches = batches + ite(pending == 1000, 1, 0)
 //@   ghostset at "if err := wb.Commit(); err != nil {": pending = 0
+//@   assume at "result := <-ch": numKV < 1000000000000
+//@   assume at "if (numKV+1)%BATCH_SIZE == 0 {": ((numKV + 1) % 1000 == 0) == (pending == 1000)
+//@   assume at "if numKV%BATCH_SIZE != 0 {": (numKV % 1000 == 0) == (pending == 0)
 //@   invariant loop 1: 0 <= numKV && numKV <= 1000000000000 && 0 <= batches && batches <= 1000000000 && 0 <= pending && pending < 1000 && numKV == 1000 * batches + pending
 //@   ensures result == nil && db != nil && ctx != nil ==> pending == 0
